@@ -90,6 +90,49 @@ func c16Run(fs *Facts) {
 	} else {
 		fs.Tri("recreateDropsDeleteMarker", Unknown, swampPath)
 	}
+	// ceasesVigilOnce: a swamp method that gives the caller's vigil up for a drain (s.CeaseVigil()) takes it again
+	// (s.BeginVigil()) afterwards in the same block, so that the handler's deferred CeaseVigil stays the only net cease
+	if sw != nil {
+		res, where := Yes, swampPath
+		for _, d := range sw.AST.Decls {
+			fd, ok := d.(*ast.FuncDecl)
+			if !ok || fd.Body == nil || fd.Recv == nil {
+				continue
+			}
+			ast.Inspect(fd.Body, func(x ast.Node) bool {
+				blk, ok := x.(*ast.BlockStmt)
+				if !ok {
+					return true
+				}
+				open := 0
+				for _, st := range blk.List {
+					es, ok := st.(*ast.ExprStmt)
+					if !ok {
+						continue
+					}
+					switch sw.Str(es.X) {
+					case "s.CeaseVigil()":
+						open++
+						where = swampPath + ":" + itoa(sw.Line(es)) + " (" + fd.Name.Name + ")"
+					case "s.BeginVigil()":
+						if open > 0 {
+							open--
+						}
+					}
+				}
+				if open > 0 {
+					res = No
+				}
+				return true
+			})
+			if res == No {
+				break
+			}
+		}
+		fs.Tri("ceasesVigilOnce", res, where)
+	} else {
+		fs.Tri("ceasesVigilOnce", Unknown, swampPath)
+	}
 	hy, err := Load(hydraPath)
 	if err != nil {
 		fs.Err("%v", err)
